@@ -14,6 +14,13 @@ def lo_class(lo):
 
 
 def run(ctx):
+    try:
+        run_checked(ctx)
+    except sc.KeyUnfaithful as e:
+        sc.unfaithful_violation(ctx, e)
+
+
+def run_checked(ctx):
     ctx.add_obligations(vcheck.coq_props("Store", "C09"))
     ctx.cov["checker_cmd"] = ("coqc -Q coq/Store BWStore coq/Store/Props/C09.v; work/bin/h_store -mode hist -c09 | "
                               "coqc work/C09/cases_*.v (digests of query x options products per state, vm_compute)")
